@@ -243,7 +243,7 @@ func VerifC18EquivSpec() {
 	b, si := symbolicBase()
 	var v variation
 	specKinds := []int{0, 1, 4, 5, 6, 7}
-	nk := vnd.Param("C18.SpecKinds", 2, 3)
+	nk := vnd.Param("C18.SpecKinds", 2, 2)
 	last := -1
 	for i := 0; i < nk; i++ {
 		j := vnd.Pick(len(specKinds))
